@@ -828,28 +828,46 @@ func (t *transitiveClosure) addExtensions(
 	if !opts.includeKnownExtensions {
 		return nil // nothing to do
 	}
-	for e, mode := range t.elements {
-		if mode != inclusionModeExplicit {
-			// we only collect extensions for messages that are directly reachable/referenced.
-			continue
-		}
-		msgDescriptor, ok := e.(*descriptorpb.DescriptorProto)
-		if !ok {
-			// not a message, nothing to do
-			continue
-		}
-		descriptorInfo := imageIndex.ByDescriptor[msgDescriptor]
-		for _, extendsDescriptor := range imageIndex.NameToExtensions[descriptorInfo.fullName] {
-			if mode := t.elements[extendsDescriptor]; mode == inclusionModeExcluded {
-				// This extension field is excluded.
+	// Adding an extension can make further messages directly reachable (the type of
+	// the extension field), and their known extensions are wanted as well. We must
+	// not add to t.elements while ranging over it (whether the added entries are
+	// visited would be up to the map iteration order), so we work on snapshots of
+	// the messages not yet visited until there are none left.
+	visited := make(map[*descriptorpb.DescriptorProto]struct{})
+	for {
+		var msgDescriptors []*descriptorpb.DescriptorProto
+		for e, mode := range t.elements {
+			if mode != inclusionModeExplicit {
+				// we only collect extensions for messages that are directly reachable/referenced.
 				continue
 			}
-			if err := t.addElement(extendsDescriptor, "", false, imageIndex, opts); err != nil {
-				return err
+			msgDescriptor, ok := e.(*descriptorpb.DescriptorProto)
+			if !ok {
+				// not a message, nothing to do
+				continue
+			}
+			if _, ok := visited[msgDescriptor]; ok {
+				continue
+			}
+			visited[msgDescriptor] = struct{}{}
+			msgDescriptors = append(msgDescriptors, msgDescriptor)
+		}
+		if len(msgDescriptors) == 0 {
+			return nil
+		}
+		for _, msgDescriptor := range msgDescriptors {
+			descriptorInfo := imageIndex.ByDescriptor[msgDescriptor]
+			for _, extendsDescriptor := range imageIndex.NameToExtensions[descriptorInfo.fullName] {
+				if mode := t.elements[extendsDescriptor]; mode == inclusionModeExcluded {
+					// This extension field is excluded.
+					continue
+				}
+				if err := t.addElement(extendsDescriptor, "", false, imageIndex, opts); err != nil {
+					return err
+				}
 			}
 		}
 	}
-	return nil
 }
 
 func (t *transitiveClosure) exploreCustomOptions(
